@@ -8,13 +8,13 @@ PROPERTY = 'C14'
 LEVEL = 'exploration'
 ALPHA = ['.', '/', ';', '=', '~', '_', 'a', 'é']
 RULE = ('case = (backend class, TAG_HASH_FILENAMES, metric string); all strings up to length L over the alphabet '
-        + repr(ALPHA) + ' (L=4 quick, 5 thorough) plus classic traversal strings and random longer names; for each the '
+        + repr(ALPHA) + ' (L=5 quick, 6 thorough) plus classic traversal strings and random longer names; for each the '
         'real getFilesystemPath() is called twice (determinism) and its realpath must lie under realpath(LOCAL_DATA_DIR); '
         'a subset is really created through database.create() in a scratch tree with decoy siblings and the tree is '
         'walked; injectivity is checked over well-formed untagged names; non-trivial = name containing a separator, dot, '
         'semicolon or tilde; distinct = distinct (backend, flag, name)')
 EXHAUSTIVE = {'quick': True, 'thorough': True}
-EXHAUSTIVE_OVER = 'all strings of length <= L over the 8-symbol hostile alphabet (L=4 quick, L=5 thorough)'
+EXHAUSTIVE_OVER = 'all strings of length <= L over the 8-symbol hostile alphabet (L=5 quick, L=6 thorough)'
 ASSUMPTIONS = ['whisper and ceres are absent: stand-in modules record file-system effects only; the Whisper path is '
                "computed by carbon's own code; for Ceres the node-path -> file-path step (join(root, nodePath.replace('.', os.sep))) "
                'is reproduced from upstream ceres.CeresTree and is an assumption',
@@ -27,7 +27,7 @@ CLASSICS = ['../x', '/abs', '/etc/passwd', 'a/../../b', '..;a=b', ';a=../..', '.
 
 
 def configs(tier, seed):
-  L = 4 if tier == 'quick' else 5
+  L = 5 if tier == 'quick' else 6
   cfgs = []
   for backend in ('whisper', 'ceres'):
     for hashf in (True, False):
@@ -65,7 +65,7 @@ def run_config(cfg, res):
     if first == ALPHA[0]:
       for c in CLASSICS:
         yield c
-      for _ in range(1500 if cfg['tier'] == 'quick' else 6000):
+      for _ in range(3000 if cfg['tier'] == 'quick' else 40000):
         n = r.randint(5, 40)
         yield ''.join(r.choice(ALPHA + ['b', 'c', '..', '/../', '中', '_tagged', ';x=']) for _ in range(n))
     yield first
@@ -75,7 +75,7 @@ def run_config(cfg, res):
 
   seen_paths = {}
   created = 0
-  create_budget = 700 if cfg['tier'] == 'quick' else 2500
+  create_budget = 1500 if cfg['tier'] == 'quick' else 8000
   label = '%s/hash=%s' % (backend, cfg['hashf'])
   for name in names():
     nontrivial = any(ch in name for ch in './;~')
